@@ -187,10 +187,118 @@ def narrowing_rule(ctx, repo):
                     else:
                         ctx.violation('C narrowing %s (%s)' % (fname, cfg), 'c/csimulator.c:%s' % n.get('line'),
                                       'in %s a value of type %s is implicitly converted to %s: tape clocks beyond 2^31 T-states (about 10 minutes of tape) wrap or go negative' % (fname, src, dst))
+            if n.get('kind') == 'CStyleCastExpr' and n.get('castKind') == 'IntegralCast' and n.get('inner'):
+                # an explicit cast is a deliberate narrowing; it is lossless for differences of clocks (bounded by a pulse width) but not
+                # for an absolute time: the clock slot, a tape edge, or the tape-state words that hold times
+                src_n = cfacts.strip(n['inner'][0])
+                src = src_n.get('type', '')
+                dst = n.get('type', '')
+                if 'long long' in src and dst in ('int', 'unsigned int', 'unsigned', 'short', 'unsigned short', 'byte', 'unsigned char') and src_n.get('kind') == 'ArraySubscriptExpr':
+                    b, i = cfacts.strip(src_n['inner'][0]), cfacts.strip(src_n['inner'][1])
+                    what = None
+                    if b.get('kind') == 'MemberExpr' and b.get('name') in ('tape_edges', 'tracer_state'):
+                        what = b.get('name')
+                    elif b.get('kind') == 'DeclRefExpr' and b.get('ref') == 'reg' and (cfacts.lit(i) == 25 or (i.get('kind') == 'DeclRefExpr' and i.get('ref') == 'T')):
+                        what = 'the clock'
+                    if what == 'tracer_state' and cfacts.lit(i) not in (0, 8):
+                        what = None          # flags, indices and frame counts
+                    if what:
+                        ctx.violation('C narrowing %s (%s)' % (fname, cfg), 'c/csimulator.c:%s' % n.get('line'),
+                                      'in %s an absolute time (%s, type %s) is cast to %s: beyond 2^31 T-states (about 10 minutes of tape) it wraps or goes negative' % (fname, what, src, dst))
+                    else:
+                        ctx.ok()
             for c in n.get('inner', []):
                 walk(c, fname)
         for name, fn in u.funcs.items():
             walk(fn, name)
+
+def fastload_rule(ctx, repo):
+    """C13.8: LoadTracer.fast_load folded on model machines.  Whatever else fast loading does to scratch state, at its end the bytes of
+    the block requested through IX/DE are in memory (above the ROM), the return address 0x053F has been pushed, SP has dropped by two and
+    PC is at the RET of LD-BYTES.  The ROM pushes the return address before it stores any byte, so where the block overlaps the two stack
+    bytes the loaded bytes win - the case a test with a stack far from the load area never sees."""
+    from sa.core.classfold import ClassFolder, Inst
+    ctx.rule('C13.8-fastload', 'LoadTracer.fast_load (folded): loaded bytes are in memory at the end (also where they overlap the pushed return address), SP -= 2, return address 0x053F pushed, PC = 0x05E2, IX/DE advanced', floor=40)
+    where = 'skoolkit/loadtracer.py (LoadTracer.fast_load)'
+    lines = []
+    def hook(n, lit):
+        if isinstance(n, ast.Call) and isinstance(n.func, ast.Name) and n.func.id == 'write_line':
+            lines.append(1)
+            from sa.core.pyfacts import FOLDED_NONE
+            return FOLDED_NONE
+        return None
+    cf = ClassFolder(repo, 'loadtracer', hook)
+    R = {}
+    su = repo.mod('simutils')
+    for nm in ('A', 'F', 'D', 'E', 'H', 'L', 'IXh', 'IXl', 'SP', 'PC', 'IFF', 'T'):
+        R[nm] = Lit(repo, 'simutils').ev(su.assigns[nm][-1])
+    class Obj:
+        _sa_fold_ok = True
+        def __init__(self, **kw):
+            self.__dict__.update(kw)
+    cases = []
+    for sp0 in (0xFF58, 0x8000, 0x4001, 0x0002, 0x0000):
+        for ix, n_req, n_blk, flag_ok in ((0x9000, 20, 20, True), (sp0 - 5 & 0xFFFF, 8, 8, True), (sp0 - 2 & 0xFFFF, 2, 2, True), (sp0 - 3 & 0xFFFF, 3, 3, True),
+                                          (0x9000, 10, 20, True), (0x9000, 30, 20, True), (0x9000, 20, 20, False), (0x3FFC, 8, 8, True), (0xFFFC, 8, 8, True)):
+            cases.append((sp0, ix, n_req, n_blk, flag_ok))
+    for sp0, ix, n_req, n_blk, flag_ok in cases:
+        data = [0xFF] + [((7 * k + 3) % 251) | 1 for k in range(n_blk)]
+        par = 0
+        for b in data:
+            par ^= b
+        data.append(par)
+        regs = [0] * 30
+        regs[R['A']] = 0xFF if flag_ok else 0x00
+        regs[R['IXh']], regs[R['IXl']] = ix >> 8, ix & 0xFF
+        regs[R['D']], regs[R['E']] = n_req >> 8, n_req & 0xFF
+        regs[R['SP']] = sp0
+        regs[R['IFF']] = 1
+        mem = [0xAA] * 65536
+        sim = Obj(registers=regs, memory=mem)
+        blk = Obj(data=data, fast_load=True, start=0, end=50)
+        tr = Inst('loadtracer', 'LoadTracer', cf)
+        tr.block_data_index, tr.max_index, tr.blocks, tr.block_index = 5, 100, [blk], 0
+        tr.state = [0, 0, 0, 50, 0, 0, 0, 1, 0, 0]
+        name = 'SP=%04X IX=%04X DE=%d block=%d bytes flag %s' % (sp0, ix, n_req, n_blk, 'match' if flag_ok else 'mismatch')
+        try:
+            rv = cf.call(tr, 'fast_load', sim)
+        except NotLiteral as e:
+            ctx.limit(name, 'fast_load not foldable: %s' % e)
+            continue
+        except (KeyError, IndexError, ValueError, TypeError, AttributeError) as e:
+            ctx.violation(name, where, 'fast_load fails with %s: %s (%s)' % (type(e).__name__, e, name))
+            continue
+        problems = []
+        sp1 = (sp0 - 2) % 65536
+        if regs[R['SP']] != sp1:
+            problems.append('SP is %04X, expected %04X' % (regs[R['SP']], sp1))
+        if regs[R['PC']] != 0x05E2:
+            problems.append('PC is %04X, expected 05E2' % regs[R['PC']])
+        loaded = {}
+        if flag_ok:
+            for k in range(min(n_req, n_blk + 1)):
+                a = (ix + k) % 65536
+                if a > 0x3FFF:
+                    loaded[a] = data[1 + k]
+        want = {}
+        for a, v in ((sp1, 0x3F), ((sp1 + 1) % 65536, 0x05)):
+            if a > 0x3FFF:
+                want[a] = v
+        want.update(loaded)          # the ROM pushes first, then stores the bytes
+        for a in sorted(want):
+            if mem[a] != want[a]:
+                problems.append('memory[%04X] is %02X, expected %02X (%s)' % (a, mem[a], want[a], 'loaded byte' if a in loaded else 'return address'))
+        changed = [a for a in range(65536) if mem[a] != 0xAA and a not in want]
+        if changed:
+            problems.append('memory[%04X] changed though it is neither loaded nor the stack slot' % changed[0])
+        if flag_ok and n_req <= n_blk:
+            end_ix = (ix + n_req)
+            if (regs[R['IXh']] * 256 + regs[R['IXl']]) != end_ix & 0xFFFF or regs[R['D']] or regs[R['E']]:
+                problems.append('IX/DE after the load are %04X/%d, expected %04X/0' % (regs[R['IXh']] * 256 + regs[R['IXl']], regs[R['D']] * 256 + regs[R['E']], end_ix & 0xFFFF))
+        if problems:
+            ctx.violation(name, where, 'fast load with %s: %s' % (name, '; '.join(problems[:3])))
+        else:
+            ctx.ok({'case': name})
 
 def window_rule(ctx, repo):
     ctx.rule('C13.6-rom-window', 'the custom-loader / ROM-loader window test of the port reader is the same predicate in Python and C (folded over all PC x ROM bit)', floor=1)
@@ -264,6 +372,7 @@ def run(ctx):
     next_int_rule(ctx, repo)
     narrowing_rule(ctx, repo)
     window_rule(ctx, repo)
+    fastload_rule(ctx, repo)
     from sa.rules import intloop
     intloop.run(ctx, repo, 'C13.7-int-window')
     from sa.rules import memo
